@@ -21,7 +21,7 @@ def run(ctx):
     )
     plan = ctx.pick(quick_plan, thorough_plan)
     depth = ctx.pick(60, 80)
-    budget = ctx.pick(150, 4200) / len(plan)
+    budget = ctx.pick(1800, 4200) / len(plan)  # quick closes in well under a minute on an idle machine; the cap is only a safety net
     for (name, f, early) in common.rotate(plan, ctx.seed):
         sc = dsworld.SCENARIOS[name]
 
